@@ -28,7 +28,7 @@ HTOL, QTOL = 0.01, 2e-5
 HSENS = 1e-3     # head uncertainty fed into the conditioning term of flow comparisons
 COMMON = {"reverse", "closed", "cv", "K5", "D100", "D600", "C60", "C140", "L50", "L2000", "hpump1", "hpump2", "hpump3", "ppump", "valve",
           "dem2", "dem0", "demneg", "pat1", "pat5", "near_min", "near_max", "vcurve", "headpat", "as_tank", "pdd", "mult2", "mult05", "pstart1h",
-          "pstart90m", "hyd30", "pat30", "pat2h", "clock3h", "revorder"}
+          "pstart90m", "hyd30", "pat30", "pat2h", "clock3h", "revorder", "defpat"}
 
 
 def control_devs(s):
